@@ -152,7 +152,7 @@ def check_list(top, all_edges, nested_chain):
     return msgs
 
 
-def one_graph(place, toppure, n, edges, res):
+def _one_graph(place, toppure, n, edges, res):
     rep = {'kind': 'graph', 'place': place, 'toppure': toppure, 'n': n,
            'edges': [list(e) for e in edges]}
     top, holder, jobs, chain = build(place, toppure, n, edges)
@@ -197,8 +197,27 @@ def one_graph(place, toppure, n, edges, res):
                              'PureScheduler' if toppure else 'Scheduler'), rep)
 
 
+def one_graph(place, toppure, n, edges, res):
+    _, hang = seq.guarded(_one_graph, place, toppure, n, edges, res)
+    if hang:
+        seq.add_violation(res, 'c15:hang', "%s | %s graph on %d nodes, edges "
+                          "(i,j: j requires i) %s, top=%s"
+                          % (hang, place, n, sorted(edges),
+                             'PureScheduler' if toppure else 'Scheduler'),
+                          {'kind': 'graph', 'place': place,
+                           'toppure': toppure, 'n': n,
+                           'edges': [list(e) for e in edges]})
+
+
 # ------------------------------------------------------------ edit histories
 def apply_history(n, hist):
+    out, hang = seq.guarded(_apply_history, n, hist)
+    if hang:
+        return None, None, set(), ["%s after history %s" % (hang, hist)]
+    return out
+
+
+def _apply_history(n, hist):
     """fresh objects, replay the history; returns (top, jobs, model edges,
     messages of the last step)"""
     jobs = [SJob(NAMES[i], i) for i in range(n)]
@@ -245,11 +264,17 @@ def edit_search(n, res):
     _, jobs, model, _ = apply_history(n, [])
     seen = {canon(jobs, model)}
     frontier = collections.deque([[]])
-    while frontier:
+    while frontier and not res.get('abort'):
         hist = frontier.popleft()
         for op in ops:
+            if res.get('abort'):
+                break
             h2 = hist + [op]
             _, jobs, model, msgs = apply_history(n, h2)
+            if jobs is None:
+                seq.add_violation(res, 'c15:edit:hang', msgs[0],
+                                  {'kind': 'edits', 'n': n, 'history': h2})
+                continue
             res['trans'] += 1
             res['validated'] += 1
             res['execs'] += 1
@@ -277,6 +302,8 @@ def run_item(item):
     graphs = list(seq.digraphs(item['n'], item['loops']))
     lo, hi = item['range']
     for edges in graphs[lo:hi]:
+        if res.get('abort'):
+            break
         one_graph(item['place'], item['toppure'], item['n'], edges, res)
     res['scenarios'] = hi - lo
     res['outcomes'] = hi - lo
